@@ -112,7 +112,7 @@ func runC20(tier string, _ []string) int {
 	c := vlib.NewCtx("C20", tier, "exploration")
 	vlib.SetPortBlock(20)
 	raceBuild := strings.Contains(os.Getenv("GORACE"), "log_path")
-	c.SetRule("per history (race-detector build): a fresh instance, 8-32 bus clients on their own connections issue ~150-400 operations against 3 nodes (a chain three deep in every other history, so that one write moves three ancestor hashes) x 2 types x 2 keys: acknowledged node-point and edge-point writes with unique (timestamp, value), node reads - directly and as entries of the parent's child listing - (split into one read per identity), admin.storeVerify (every fourth history carries 120 ballast nodes and two connections that only verify, so that Stop meets verifications in flight); a fifth of the clients write through the library's SendNodePoints (1 s deadline), another fifth read and write through the HTTP API (so api handlers run concurrently with bus handlers); ~3% of the operations create a new leaf node below one of the nodes while its ancestors' hashes are moving, ~1% give one of the nodes being written a second placement (mirror); random 0-2 ms delays are injected at the store.afterNodeWrite / store.afterEdgeWrite hook sites (between database commit and rebroadcast/reply). Every call is recorded at the client boundary (call time before sending, return time after the reply, one monotonic clock); an unanswered operation stays open to the end of the history. Monitors: (1) porcupine linearizability of each identity's history against a max-timestamp register, (2) every request answered, (3) final content = newest accepted write per identity (C01) with consistent hashes (C03), (4) race detector reports involving simpleiot code, (5) Server.Stop during or after load: Run returns and the same file opens again with the acknowledged writes. distinct = (clients, stop mode, fingerprint class: overlapping pairs bucket, concurrent read/write pairs bucket)")
+	c.SetRule("per history (race-detector build): a fresh instance, 8-32 bus clients on their own connections issue ~150-400 operations against 3 nodes (a chain three deep in every other history, so that one write moves three ancestor hashes) x 2 types x 2 keys: acknowledged node-point and edge-point writes with unique (timestamp, value), node reads - directly and as entries of the parent's child listing - (split into one read per identity), admin.storeVerify (every fourth history carries 120 ballast nodes and two connections that only ask for verification (admin.storeVerify), so that Stop meets verifications in flight; at rest after the load a burst of 260 pipelined 40 KiB requests on one connection must be answered one by one, and admin.storeVerify and admin.storeMaint are asked for at the same time); a fifth of the clients write through the library's SendNodePoints (1 s deadline), another fifth read and write through the HTTP API (so api handlers run concurrently with bus handlers); ~3% of the operations create a new leaf node below one of the nodes while its ancestors' hashes are moving, ~1% give one of the nodes being written a second placement (mirror); random 0-2 ms delays are injected at the store.afterNodeWrite / store.afterEdgeWrite hook sites (between database commit and rebroadcast/reply). Every call is recorded at the client boundary (call time before sending, return time after the reply, one monotonic clock); an unanswered operation stays open to the end of the history. Monitors: (1) porcupine linearizability of each identity's history against a max-timestamp register, (2) every request answered, (3) final content = newest accepted write per identity (C01) with consistent hashes (C03), (4) race detector reports involving simpleiot code, (5) Server.Stop during or after load: Run returns and the same file opens again with the acknowledged writes. distinct = (clients, stop mode, fingerprint class: overlapping pairs bucket, concurrent read/write pairs bucket)")
 	c.Assume("schedules are sampled, not enumerated; a clean race-detector run means no report on the executed paths")
 	if !raceBuild {
 		c.Assume("this run was NOT built with -race")
@@ -175,6 +175,12 @@ func runC20(tier string, _ []string) int {
 			for b := 0; b < 120; b++ {
 				id := fmt.Sprintf("h%d-b%d", i, b)
 				if e, err := vlib.SendAck(setup, vlib.EdgeSubj(id, nodes[0]), data.Points{{Type: data.PointTypeTombstone, Time: time.Unix(0, 1)}, {Type: data.PointTypeNodeType, Text: "variable"}, {Type: "role", Time: time.Unix(0, 2), Text: "ballast"}}); err != nil || e != "" {
+					c.Violate("store:legal-write-refused", fmt.Sprint(err, e), nil)
+					return
+				}
+				// (a small point that is newer than what the burst below sends: the burst's large points are
+				// answered but not kept, so that nodes and listings stay small enough to be read in one message)
+				if e, err := vlib.SendAck(setup, vlib.NodeSubj(id), data.Points{{Type: "blob", Time: time.Unix(0, 1900000000e9), Value: 1}}); err != nil || e != "" {
 					c.Violate("store:legal-write-refused", fmt.Sprint(err, e), nil)
 					return
 				}
@@ -416,7 +422,8 @@ func runC20(tier string, _ []string) int {
 						default:
 						}
 						call := mono()
-						s, err := adminReq(nc, "admin.storeVerify")
+						subj := "admin.storeVerify"
+						s, err := adminReq(nc, subj)
 						o := &c20Op{Part: "verify", Client: cl, Kind: "verify", Call: call}
 						if err == nil {
 							o.Ret = mono()
@@ -474,6 +481,98 @@ func runC20(tier string, _ []string) int {
 		if unanswered > 0 && stopMode == "after-load" {
 			c.Violate("concurrency:request-never-answered", fmt.Sprintf("%d requests got no reply although the instance was running", unanswered), wit(nil))
 			return
+		}
+		// (2a) a sender that does not wait: 260 requests of 40 KiB each published back to back on one
+		// connection (about 10 MiB queued at the store at once); each must be answered
+		if heavy && !stopped {
+			bnc, err := in.Connect()
+			if err != nil {
+				c.Inconclusive(err.Error())
+				return
+			}
+			inbox := nats.NewInbox()
+			var answered, refused int64
+			replies := make(chan struct{}, 1024)
+			if _, err := bnc.Subscribe(inbox+".*", func(m *nats.Msg) {
+				if len(m.Data) != 0 {
+					atomic.AddInt64(&refused, 1)
+				}
+				atomic.AddInt64(&answered, 1)
+				replies <- struct{}{}
+			}); err != nil {
+				c.Inconclusive(err.Error())
+				return
+			}
+			const nBurst = 260
+			blob := make([]byte, 40<<10)
+			for q := range blob {
+				blob[q] = byte(q)
+			}
+			for q := 0; q < nBurst; q++ {
+				pts := data.Points{{Type: "blob", Time: time.Unix(0, 1800000000e9+int64(q)), Value: float64(q), Data: blob, Origin: "burst"}}
+				b, _ := pts.ToPb()
+				// (spread over the ballast nodes: a node must still fit into one reply message when it is read)
+				if err := bnc.PublishRequest(vlib.NodeSubj(fmt.Sprintf("h%d-b%d", i, q%120)), fmt.Sprintf("%s.%d", inbox, q), b); err != nil {
+					c.Inconclusive(err.Error())
+					return
+				}
+			}
+			_ = bnc.Flush()
+			bdone := wd.Watch("concurrency:request-never-answered", wit(map[string]any{"phase": "burst of pipelined requests"}), 120*time.Second, true)
+			timeout := time.After(100 * time.Second)
+		collect:
+			for got := 0; got < nBurst; got++ {
+				select {
+				case <-replies:
+				case <-timeout:
+					break collect
+				}
+			}
+			bdone()
+			if a := atomic.LoadInt64(&answered); a != nBurst {
+				c.Violate("concurrency:request-never-answered", fmt.Sprintf("%d of %d pipelined requests (40 KiB each, published without waiting) were never answered", nBurst-a, nBurst), wit(nil))
+				return
+			}
+			if rf := atomic.LoadInt64(&refused); rf != 0 {
+				c.Violate("concurrency:legal-request-refused", fmt.Sprintf("%d of %d pipelined requests were refused", rf, nBurst), wit(nil))
+				return
+			}
+			bnc.Close()
+			c.Count("pipelined_bursts_answered", 1)
+		}
+		// (2b) at rest: verification and the repairing variant (admin.storeMaint) asked for at the same
+		// time from two connections; both must be answered and have nothing to complain about
+		if heavy && !stopped {
+			var awg sync.WaitGroup
+			var amu sync.Mutex
+			abad := ""
+			adone := wd.Watch("concurrency:request-never-answered", wit(map[string]any{"phase": "verify and maint at rest"}), 120*time.Second, true)
+			for a, subj := range []string{"admin.storeVerify", "admin.storeMaint"} {
+				anc, err := in.Connect()
+				if err != nil {
+					c.Inconclusive(err.Error())
+					return
+				}
+				awg.Add(1)
+				go func(a int, subj string, nc *nats.Conn) {
+					defer awg.Done()
+					for k := 0; k < 8; k++ {
+						s, err := adminReq(nc, subj)
+						amu.Lock()
+						if abad == "" && (err != nil || s != "") {
+							abad = fmt.Sprintf("%s at rest (while the other kind was in flight): %q %v", subj, s, err)
+						}
+						amu.Unlock()
+					}
+				}(a, subj, anc)
+			}
+			awg.Wait()
+			adone()
+			if abad != "" {
+				c.Violate("concurrency:verification-at-rest-fails", abad, wit(nil))
+				return
+			}
+			c.Count("verify_and_maint_overlapping_at_rest", 1)
 		}
 		// (1) linearizability per identity
 		parts := map[string][]porcupine.Operation{}
